@@ -381,6 +381,7 @@ pub fn run(tier: &str, prop: Prop) -> i32 {
     cell_pairs(&mut rep, prop, what, thorough);
     parsed_ranges(&mut rep, prop);
     other_constructors(&mut rep, prop, what);
+    related_values(&mut rep, prop, what);
     failing_writer(&mut rep, prop);
     if prop == Prop::C06 {
         tokens_roundtrip(&mut rep);
@@ -601,6 +602,87 @@ fn other_constructors(rep: &mut Report, prop: Prop, what: &str) {
         }
     }
     rep.sub("other-constructors", "every rank pair, the full range, the empty range, every third combo and 29 mixed shapes built by collect() from bare pairs (FromIterator<CardPair>, weight 1), from weighted pairs and from every pair twice; read back through card_pairs() and through iteration over &range; HandRange::empty()", n, n, false, json!({}));
+}
+
+/// Two values that are related - a range and its clone, its re-parse, its re-collection, the evaluator built from it -
+/// stay independent: heavy use of one (all observers, an evaluator drained from it, dropping it) leaves the contents
+/// and the text of the others as they were.
+fn related_values(rep: &mut Report, prop: Prop, what: &str) {
+    use espada::evaluator::FlopExhaustiveEvaluator;
+    let mut shapes: Vec<Contents> = vec![];
+    let rps = RP::all();
+    for (i, rp) in rps.iter().enumerate() {
+        let mut c = Contents::new();
+        add_rp(&mut c, rp, bits(0.5));
+        let next = &rps[(i + 1) % rps.len()];
+        c.insert(next.combos()[0], bits(0.25));
+        shapes.push(c);
+    }
+    for n in [1usize, 7, 64, 300, 1326] {
+        shapes.push(all_combos().into_iter().take(n).enumerate().map(|(i, cb)| (cb, bits([1.0f32, 0.5, 0.25][i % 3]))).collect());
+    }
+    let outs = par_map(shapes.len(), |i| {
+        let c = shapes[i].clone();
+        let c2 = c.clone();
+        let r = catch(move || {
+            let a = range_of(&c2);
+            let text0 = a.to_string();
+            let b = a.clone();
+            let parsed: HandRange = text0.parse().unwrap();
+            let recollected: HandRange = (&a).into_iter().map(|(k, w)| (*k, *w)).collect();
+            // heavy use of `a`: every observer twice, an evaluator built from it and drained a little, then dropped
+            for _ in 0..2 {
+                let _ = a.rank_pairs();
+                let _ = a.orphan_card_pairs();
+                let _ = a.to_string();
+                let _ = a.card_pairs().len();
+            }
+            let board = board_opt(&[8u8, 26, 49]);
+            let mut seen = 0usize;
+            for flop_ranges in [vec![a.clone()], vec![a.clone(), a.clone()]] {
+                for _sd in FlopExhaustiveEvaluator::new(&board, &flop_ranges).into_iter().take(40) {
+                    seen += 1;
+                }
+            }
+            let a_after = (contents_of(&a), a.to_string());
+            drop(a);
+            let mut problems: Vec<String> = vec![];
+            if a_after.0 != c2 || a_after.1 != text0 {
+                problems.push("the range itself changed by being observed and evaluated".into());
+            }
+            for (name, v) in [("its clone", &b), ("the re-parse of its text", &parsed), ("the re-collection of its items", &recollected)] {
+                if contents_of(v) != c2 {
+                    problems.push(format!("{} no longer holds the original contents after the range was used and dropped", name));
+                } else if v.to_string() != text0 {
+                    problems.push(format!("{} prints {:?}, the range printed {:?}", name, v.to_string(), text0));
+                }
+                let split_ok = {
+                    let covered: usize = v.rank_pairs().iter().map(|(k, _)| (*k).into_iter().count()).sum::<usize>() + v.orphan_card_pairs().len();
+                    covered == c2.len()
+                };
+                if !split_ok {
+                    problems.push(format!("{}: rank pairs + leftovers no longer cover the contents exactly once", name));
+                }
+            }
+            if b != parsed || b != recollected {
+                problems.push("clone, re-parse and re-collection are not equal to each other".into());
+            }
+            (problems, seen)
+        });
+        match r {
+            Err(e) => Some((c, json!({"panic": e}))),
+            Ok((problems, _)) if !problems.is_empty() => Some((c, json!({"problems": problems}))),
+            Ok(_) => None,
+        }
+    });
+    let n = shapes.len() as u64;
+    for o in outs {
+        if let Some((c, b)) = o {
+            record(rep, "related-values", &c, what, b);
+        }
+    }
+    let _ = prop;
+    rep.sub("related-values", "every rank pair beside a leftover combo, and the first 1..1326 combos in three weights: the range is cloned, re-parsed from its text and re-collected from its items, then used heavily (every observer twice, two evaluators built from it and partly drained) and dropped; the range itself until then, and the three relatives afterwards, keep the original contents, text and split", n, n, false, json!({}));
 }
 
 struct Limited {
